@@ -45,7 +45,6 @@ PixCY(q, j) == 2 * RyD(q) * q[4] - (2 * j + 1) * RyN(q)          \* = 2*h * cent
 CellCX(g, l, cx) == 2 * g.bbox[1] + (2 * cx + 1) * Res(g, l)
 CellCY(g, l, cy) == 2 * g.bbox[2] + (2 * cy + 1) * Res(g, l)
 
-Abs(x) == IF x < 0 THEN -x ELSE x
 
 \* distance from the pixel centre to the shown cell (a rectangle of the level's resolution) <= 1.5 output pixels.
 \* Everything times 2*w resp. 2*h:  cell = [c0, c1] with 2*w*c0 = 2*w*(bbox.x0 + cx*res), pixel centre = PixCX
